@@ -13,7 +13,7 @@ use std::io::{Seek, SeekFrom};
 
 pub const META: PropMeta = PropMeta {
     level: "exploration",
-    rule: "muxer and reader share a sparse in-memory stream (uniform writes are stored run-length encoded, so > 4 GiB of media data cost a few KB). Boundary families: (a) output starting at stream position P chosen so that the offset of chunk k (k in 0..4) is 2^32+d, d in -3..=3, over all track kinds; (b) cumulative payload: 63 samples of 64 MiB plus a last sample sized so that the mdat box is 2^32-1, 2^32 or 2^32+1 bytes long (+ further small samples beyond 4 GiB); (c) durations: sample durations summing so that the media duration, and independently its image in the movie timescale (ratios 1:1, 1:2, 2:1, 2:3, 3:2), is 2^32+d, d in -2..=2. Oracle: the reader opened on the same stream (absolute-end size convention) returns every sample (size, fill pattern, start time, duration) and the counts; the harness' own parser checks the header bytes: mdat uses the 64-bit size form iff its size > u32::MAX and the size is exact, chunk offsets use co64 whenever one exceeds u32::MAX and are exact (chunks inside the mdat payload, disjoint), mdhd/tkhd/mvhd use version 1 whenever the value exceeds u32::MAX and are exact (tkhd/mvhd within one tick). Non-trivial = some checked value lies within 2^20 of 2^32 and at least one lies above u32::MAX. Distinct = hash of the case.",
+    rule: "muxer and reader share a sparse in-memory stream (uniform writes are stored run-length encoded, so > 4 GiB of media data cost a few KB). Boundary families: (a) output starting at stream position P chosen so that the offset of chunk k (k in 0..4) is 2^32+d, d in -3..=3, over all track kinds; (b) cumulative payload: 63 samples of 64 MiB plus a last sample sized so that the mdat box is 2^32-1, 2^32 or 2^32+1 bytes long (+ further small samples beyond 4 GiB); (c) durations: sample durations summing so that the media duration, and independently its image in the movie timescale (ratios 1:1, 1:2, 2:1, 2:3, 3:2), is 2^32+d, d in -2..=2, with 0..2 short tracks before and/or after the long one. Oracle: the reader opened on the same stream (absolute-end size convention) returns every sample (size, fill pattern, start time, duration) and the counts; the harness' own parser checks the header bytes: mdat uses the 64-bit size form iff its size > u32::MAX and the size is exact, chunk offsets use co64 whenever one exceeds u32::MAX and are exact (chunks inside the mdat payload, disjoint), mdhd/tkhd/mvhd use version 1 whenever the value exceeds u32::MAX and are exact (tkhd/mvhd within one tick). Non-trivial = some checked value lies within 2^20 of 2^32 and at least one lies above u32::MAX. Distinct = hash of the case.",
     assumptions: &["single samples >= 4 GiB are out of reach (the statement speaks of cumulative payload)", "big samples carry a uniform per-sample fill byte; neighbouring samples use different fill bytes"],
 };
 
@@ -147,7 +147,7 @@ fn oracle_inner(c: &Case) -> Result<Outcome, Failure> {
     // mdat must cover exactly the media bytes written (+ the 8-byte 'wide' placeholder)
     let payload: u64 = model.iter().flatten().map(|s| s.size as u64).sum();
     ensure!(md_hi - md_lo >= payload && md_hi - md_lo <= payload + 16, "c13:mdat-size", "mdat payload is {} bytes but {} bytes of samples were written", md_hi - md_lo, payload);
-    let mcase = MuxCase { major: *b"isom", minor: 1, compat: vec![*b"mp42"], timescale: c.timescale, tracks: c.tracks.clone(), ops: vec![] };
+    let mcase = MuxCase { major: *b"isom", minor: 1, compat: vec![*b"mp42"], timescale: c.timescale, tracks: c.tracks.clone(), ops: vec![], sink: 0 };
     super::c02::validate_parts(&mcase, &model, &ftyp_payload.unwrap_or_default(), &moov_bytes, md_lo, md_hi)?;
     // 64-bit chunk offsets when needed (validate_parts decodes either form exactly; make the form explicit)
     let mtop = parse::walk(&moov_bytes).map_err(|e| Failure::new("c13:moov-parse", e))?;
@@ -243,7 +243,10 @@ pub fn family_a() -> impl Strategy<Value = Case> {
 /// family (c): durations around 2^32 in the media and the movie timescale
 pub fn family_c() -> impl Strategy<Value = Case> {
     let ratios = prop_oneof![Just((1u32, 1u32)), Just((1, 2)), Just((2, 1)), Just((2, 3)), Just((3, 2)), Just((1000, 600)), Just((90000, 1000))];
-    (0u32..5, ratios, -2i64..=2, any::<bool>(), 1usize..4).prop_map(|(kind, (track_ts, movie_ts), d, target_movie, parts)| {
+    // further, short tracks before and/or after the long one: header versions are per box, and the
+    // movie header must follow the longest track wherever it sits in the track list
+    let others = (0usize..3, 0usize..3, 0u32..5, 0u32..3);
+    (0u32..5, ratios, -2i64..=2, any::<bool>(), 1usize..4, others).prop_map(|(kind, (track_ts, movie_ts), d, target_movie, parts, (n_others, long_pos, other_kind, other_samples))| {
         let b = ((1i64 << 32) + d) as u128;
         // media duration so that either it, or its movie-timescale image, is 2^32 + d
         let sum: u128 = if target_movie { (b * track_ts as u128 + movie_ts as u128 - 1) / movie_ts as u128 } else { b };
@@ -261,8 +264,22 @@ pub fn family_c() -> impl Strategy<Value = Case> {
             durs.push(share as u32);
             left -= share;
         }
-        let ops = durs.iter().enumerate().map(|(i, du)| BOp { track: 1, size: 3 + (i as u32 % 3), fill: 1 + i as u8, dur: *du, cts: 0, sync: i == 0 }).collect();
-        Case { family: if target_movie { "c:movie-timescale-duration-at-2^32".into() } else { "c:media-duration-at-2^32".into() }, start_pos: 0, timescale: movie_ts, tracks: vec![track(kind, track_ts)], ops }
+        let long_idx = long_pos.min(n_others);
+        let mut tracks = Vec::new();
+        let mut ops: Vec<BOp> = Vec::new();
+        for ti in 0..=n_others {
+            if ti == long_idx {
+                tracks.push(track(kind, track_ts));
+            } else {
+                tracks.push(track((other_kind + ti as u32) % 5, 1000));
+                for j in 0..other_samples {
+                    ops.push(BOp { track: ti as u32 + 1, size: 2 + j, fill: 0x40 + ti as u8, dur: 10 + j, cts: 0, sync: true });
+                }
+            }
+        }
+        ops.extend(durs.iter().enumerate().map(|(i, du)| BOp { track: long_idx as u32 + 1, size: 3 + (i as u32 % 3), fill: 1 + i as u8, dur: *du, cts: 0, sync: i == 0 }));
+        let fam = if target_movie { "c:movie-timescale-duration-at-2^32" } else { "c:media-duration-at-2^32" };
+        Case { family: if n_others == 0 { fam.into() } else { format!("{}+other-tracks", fam) }, start_pos: 0, timescale: movie_ts, tracks, ops }
     })
 }
 
